@@ -41,6 +41,9 @@ var c19Templates = []c19Template{
 	{"nested-list-merge", map[string]any{"groups": []any{[]any{map[string]any{"name": "web", "$merge": "defaults"}}}, "defaults": map[string]any{"cpu": 1}}, false},
 	{"match-changes-c", map[string]any{"$match": map[string]any{"a": 1}, "c": map[string]any{"y": 9}}, false},
 	{"child-changes-defaults", map[string]any{"defaults": map[string]any{"cpu": 8}}, true},
+	{"doc-with-nested-merge-host", map[string]any{"a": 1, "c": map[string]any{"$merge": "p", "x": 1}, "p": map[string]any{"v": "A"}}, false},
+	{"cross-doc-into-nested-host", map[string]any{"p": map[string]any{"v": "B"}, "y": map[string]any{"$replace": map[string]any{"$match": map[string]any{"a": 1}, "$path": "c"}}, "w": []any{map[string]any{"$merge": []any{map[string]any{"a": 1}, "c"}}, 0}}, false},
+	{"evaluated-key-collides", map[string]any{"name": "svc", "svc": "literal", `$"{name}"`: "interpolated"}, false},
 	{"cross-doc-replace-list", map[string]any{"y": map[string]any{"$replace": []any{map[string]any{"a": 1}, "c"}}, "l": []any{[]any{map[string]any{"$merge": map[string]any{"$match": map[string]any{"a": 1}, "$path": "c"}, "z": 0}}}}, false},
 }
 
@@ -416,13 +419,13 @@ func buildC19(tier string) *core.Plan {
 			}
 		}
 	} else {
-		sets = [][]int{{0, 1, 6, 9}, {2, 3, 4, 10}, {5, 7, 8, 11}, {0, 1, 2, 8}, {0, 11, 13, 9}, {12, 14, 1, 6}, {0, 15, 13, 14}}
+		sets = [][]int{{0, 1, 6, 9}, {2, 3, 4, 10}, {5, 7, 8, 11}, {0, 1, 2, 8}, {0, 11, 13, 9}, {12, 14, 1, 6}, {0, 18, 13, 14}, {15, 16, 17, 13}}
 	}
 	statelessSets := sets
 	if thorough {
-		statelessSets = [][]int{{0, 1, 6, 9}, {2, 3, 4, 10}, {5, 7, 8, 11}, {0, 1, 2, 8}, {0, 6, 9, 11}, {1, 4, 8, 10}, {0, 11, 13, 9}, {12, 14, 1, 6}, {0, 15, 13, 14}}
+		statelessSets = [][]int{{0, 1, 6, 9}, {2, 3, 4, 10}, {5, 7, 8, 11}, {0, 1, 2, 8}, {0, 6, 9, 11}, {1, 4, 8, 10}, {0, 11, 13, 9}, {12, 14, 1, 6}, {0, 18, 13, 14}, {15, 16, 17, 13}}
 	} else {
-		statelessSets = [][]int{sets[0], sets[1], sets[4], sets[5]}
+		statelessSets = [][]int{sets[0], sets[1], sets[4], sets[5], sets[7]}
 	}
 
 	// stateless: case = (set, first two ops); inner = all continuations
